@@ -228,6 +228,11 @@ def run(ctx):
                 rs.unrec("%s %s: %s" % (nm, case, detail))
         ctx.floor(rs, 8)
 
+    if ctx.want("R12"):
+        rs = ctx.rule("R12", "sort requests in unusual argument forms (one-shot iterator, tuple, keywords) leave the type manager's tables as the usual form does")
+        from . import mgr_deep
+        mgr_deep.report(ctx, rs, mgr_deep.type_forms_results(), "pysmt/typing.py", 4)
+
     if ctx.want("R10"):
         rs = ctx.rule("R10", "real managers: importing a formula into an environment (normalize) gives the same copy whatever was imported before, also from another source whose node ids coincide")
         from . import mgr_deep
